@@ -25,6 +25,8 @@ pub struct Case {
     pub isolation: bool,
     /// additive skip connections (used by C16; empty for C01)
     pub connects: Vec<(usize, usize)>,
+    /// run a short learn() on the same network object first and check the gradients at the trained weights
+    pub after_learn: bool,
 }
 
 pub fn conv_nonunit(l: &LayerSpec) -> bool {
@@ -82,7 +84,7 @@ fn decode(tape: &[u32], tier: Tier) -> Case {
         }
         spec.layers.iter_mut().for_each(smooth);
     }
-    Case { spec, obj, softmax_ce, wseed: t.raw(), wmode, xseed: t.raw(), tseed: t.raw(), learn_step: t.chance(1, 3), isolation, connects: vec![] }
+    Case { spec, obj, softmax_ce, wseed: t.raw(), wmode, xseed: t.raw(), tseed: t.raw(), learn_step: t.chance(1, 3), isolation, connects: vec![], after_learn: !isolation && t.chance(1, 6) }
 }
 
 #[derive(Clone, Copy, PartialEq)]
@@ -200,8 +202,36 @@ pub fn check(case: &Case, ev: &mut CaseEv, tier: Tier) -> CheckResult {
         ev.class("a parameter tensor exactly zero");
     }
     apply_params(&mut net, &ps);
-    let rps = to_ref_params(&ps);
     let n_in = count(&spec.input);
+    if case.after_learn {
+        // the same network object goes through two epochs of training first (cached state must not go stale)
+        let od = final_dims(spec);
+        let prob_obj = matches!(case.obj, ObjK::CE | ObjK::BCE | ObjK::KL);
+        let mk = |k: u32| {
+            let y = payload(case.tseed ^ k, 1, count(&od), 1.0);
+            let y: Vec<f32> = if prob_obj || case.softmax_ce { y.iter().map(|v| 0.05 + 0.45 * (v + 1.0)).collect() } else { y };
+            (tens::build(&spec.input, &payload(case.xseed ^ k, 3, n_in, 1.0)), tens::build(&od, &y))
+        };
+        let (x1, y1) = mk(101);
+        let (x2, y2) = mk(202);
+        net.set_objective(lib_obj(ObjK::MSE), None);
+        net.set_optimizer(optimizer::SGD::create(0.03125, None));
+        let r = catch(std::panic::AssertUnwindSafe(|| net.learn(&vec![&x1, &x2], &vec![&y1, &y2], None, 2, 2, None)));
+        if let Err(p) = r {
+            if p.contains("Loss is NaN") {
+                ev.discard = Some("pre-training diverged to NaN");
+                return Ok(());
+            }
+            return Err(mkfail(format!("learn() panicked on a valid network: {} ({:?})", p, spec)));
+        }
+        ps = collect_params(&net);
+        if ps.iter().any(|(_, t)| tens::flat(t).iter().any(|v| !v.is_finite() || v.abs() > 1e3)) {
+            ev.discard = Some("pre-training blew the weights up");
+            return Ok(());
+        }
+        ev.class("gradients checked after learn() on the same network object");
+    }
+    let rps = to_ref_params(&ps);
     let mut x = payload(case.xseed, 3, n_in, 1.0);
     if case.wmode == 6 {
         for (i, v) in x.iter_mut().enumerate() {
@@ -514,7 +544,7 @@ impl Prop for C01 {
         t.pick(60_000, 3_000_000)
     }
     fn rule(&self) -> String {
-        "tape-decoded network: input flat 1..8 or c x h x w (c 1-3, h,w 1-7, thorough 9; non-square), 1-4 (thorough 6) layers of dense / convolution / deconvolution / max-pool / feedback block without internal skips in any order that fits, full (filters, kernel, stride, padding, dilation, bias) lattice, element-wise activations, soft-max + cross-entropy head in 1/6 of the cases, all seven objectives, distinct non-constant weights and inputs; 1/4 of the cases are single layers whose public backward() is called in isolation. Oracle: central differences of an independent f64 reference network (path P1, used when the reference reproduces the library's forward pass at the base point and two perturbed points) or of the library's own f32 forward pass with Richardson extrapolation (path P2); every parameter (sampled above 300) and, for isolated layers, every input-gradient component; one learn() step with plain SGD must move each parameter by -lr * gradient. Cases within 2e-3 of an activation kink / pooling tie are discarded (counted). Non-trivial: |g|max > 1e-3 and (depth >= 2 or non-default stride/dilation/padding or >= 2 channels or a feedback block). Distinct = (architecture with all hyper-parameters and activations, objective, soft-max flag).".into()
+        "tape-decoded network: input flat 1..8 or c x h x w (c 1-3, h,w 1-7, thorough 9; non-square), 1-4 (thorough 6) layers of dense / convolution / deconvolution / max-pool / feedback block without internal skips in any order that fits, full (filters, kernel, stride, padding, dilation, bias) lattice, element-wise activations, soft-max + cross-entropy head in 1/6 of the cases, all seven objectives, distinct non-constant weights and inputs; 1/4 of the cases are single layers whose public backward() is called in isolation; in 1/6 of the other cases the same network object first goes through two epochs of learn() and the gradients are checked at the trained weights; parameter tensors that are exactly zero and inputs with exact zeros occur (with smooth activations). Oracle: central differences of an independent f64 reference network (path P1, used when the reference reproduces the library's forward pass at the base point and two perturbed points) or of the library's own f32 forward pass with Richardson extrapolation (path P2); every parameter (sampled above 300) and, for isolated layers, every input-gradient component; one learn() step with plain SGD must move each parameter by -lr * gradient. Cases within 2e-3 of an activation kink / pooling tie are discarded (counted). Non-trivial: |g|max > 1e-3 and (depth >= 2 or non-default stride/dilation/padding or >= 2 channels or a feedback block). Distinct = (architecture with all hyper-parameters and activations, objective, soft-max flag).".into()
     }
     fn assumptions(&self) -> Vec<String> {
         vec![
